@@ -47,7 +47,7 @@ func vhVersionOf(s Slab) (uint64, bool) {
 	return v.version, ok
 }
 
-//vh:stub github.com/onflow/atree.EncodeSlab
+//vh:stub github.com/onflow/atree.EncodeSlab codec
 func vstub_EncodeSlab(slab Slab, encMode cbor.EncMode) ([]byte, error) {
 	ss, ok := slab.(*StorableSlab)
 	if !ok {
@@ -66,7 +66,7 @@ func vstub_EncodeSlab(slab Slab, encMode cbor.EncMode) ([]byte, error) {
 	return b, nil
 }
 
-//vh:stub github.com/onflow/atree.DecodeSlab
+//vh:stub github.com/onflow/atree.DecodeSlab codec
 func vstub_DecodeSlab(id SlabID, data []byte, decMode cbor.DecMode, decodeStorable StorableDecoder, decodeTypeInfo TypeInfoDecoder) (Slab, error) {
 	if len(data) != 9 {
 		return nil, NewDecodingErrorf("abstract codec: bad length")
@@ -137,8 +137,9 @@ type vBaseCall struct {
 type vBase struct {
 	regs      map[SlabID][]byte
 	log       []vBaseCall
-	faults    []bool // faults[i]: the i-th Store/Remove call fails
+	faults    map[SlabID]bool // the Store/Remove call for this identifier fails (this attempt)
 	ncalls    int
+	nfailed   int
 	nextIndex map[Address]uint64
 	retrFail  int // fail the k-th Retrieve (1-based), 0 = never
 	nretr     int
@@ -150,14 +151,17 @@ func newVBase() *vBase {
 	return &vBase{regs: map[SlabID][]byte{}, nextIndex: map[Address]uint64{}}
 }
 
-func (b *vBase) fault() bool {
-	i := b.ncalls
+func (b *vBase) fault(id SlabID) bool {
 	b.ncalls++
-	return i < len(b.faults) && b.faults[i]
+	if f, ok := b.faults[id]; ok && f {
+		b.nfailed++
+		return true
+	}
+	return false
 }
 
 func (b *vBase) Store(id SlabID, data []byte) error {
-	if b.fault() {
+	if b.fault(id) {
 		return fmt.Errorf("injected ledger write failure")
 	}
 	b.log = append(b.log, vBaseCall{'S', id})
@@ -175,7 +179,7 @@ func (b *vBase) Retrieve(id SlabID) ([]byte, bool, error) {
 }
 
 func (b *vBase) Remove(id SlabID) error {
-	if b.fault() {
+	if b.fault(id) {
 		return fmt.Errorf("injected ledger delete failure")
 	}
 	b.log = append(b.log, vBaseCall{'D', id})
